@@ -83,7 +83,15 @@ def main():
             if failed != BASELINE_FAIL or passed != BASELINE_PASS or non_baseline:
                 meta["verdict"] = f"rejected: existing tests notice the change ({tail}; {non_baseline[:5]})"
                 return finish(a, meta, keep=False)
-        # detection
+        # detection - from a frozen snapshot of the machinery, so that edits in /verif made
+        # while this (long) script runs cannot mix two versions within one check run
+        snap = f"/tmp/vsnap_{a.id}"
+        shutil.rmtree(snap, ignore_errors=True)
+        os.makedirs(snap)
+        shutil.copytree(os.path.join(VERIF, "sim"), os.path.join(snap, "sim"), ignore=shutil.ignore_patterns("__pycache__"))
+        for f in ("check", "known_findings.json"):
+            shutil.copy(os.path.join(VERIF, f), os.path.join(snap, f))
+        meta["verif_commit"] = sh(["git", "-C", VERIF, "rev-parse", "--short", "HEAD"])[1].strip()
         det = {}
         for c in checks:
             for seed in a.seeds.split(","):
@@ -91,7 +99,7 @@ def main():
                 os.makedirs(evdir, exist_ok=True)
                 cenv = dict(os.environ, VERIF_REPO=wt, VERIF_SEED=seed, VERIF_EVIDENCE_DIR=evdir)
                 t = time.time()
-                rc, out = sh([os.path.join(VERIF, "check"), c, "--tier", "quick"], cwd=VERIF, env=cenv, timeout=7200)
+                rc, out = sh([os.path.join(snap, "check"), c, "--tier", "quick"], cwd=snap, env=cenv, timeout=7200)
                 lines = [ln for ln in out.splitlines() if ln.startswith(("VIOLATION", "KNOWN-FINDING", "HARNESS-ERROR")) or ln.strip().startswith("violation:")]
                 det[f"{c}@seed{seed}"] = {"exit": rc, "wall_s": round(time.time() - t), "lines": lines[:8]}
                 shutil.rmtree(evdir, ignore_errors=True)
@@ -102,6 +110,7 @@ def main():
         meta["verdict"] = "kept: " + ("caught by " + ", ".join(caught) if caught else "MISSED by " + ", ".join(det))
         return finish(a, meta, keep=True)
     finally:
+        shutil.rmtree(f"/tmp/vsnap_{a.id}", ignore_errors=True)
         sh(["git", "-C", "/repo", "worktree", "remove", "--force", wt])
         shutil.rmtree(wt, ignore_errors=True)
 
